@@ -690,6 +690,18 @@ class Schema:
             n = z3.If(n <= m, n, m)          # zip truncates to the shortest (that is exactly what C11 must exclude)
         return SSeq(z3.simplify(n), lambda k: tuple(s.get(k) for s in seqs), "list", "zip")
 
+    def scatter_assign(self, ip, arr, idx, val, node=None):
+        h = getattr(ip.reg, "scatter_assign_hook", None)
+        if h is None:
+            raise Unsupported("fancy-index assignment")
+        return h(ip, arr, idx, val, node)
+
+    def array_equal(self, ip, A, B):
+        h = getattr(ip.reg, "array_equal_hook", None)
+        if h is None:
+            raise Unsupported("np.array_equal")
+        return h(ip, A, B)
+
     def all_symbolic(self, ip, S, node=None):
         h = getattr(ip.reg, "all_hook", None)
         if h is None:
